@@ -24,16 +24,26 @@ def _assigners(cfg: CFG, name: str):
     return [n for n in cfg.nodes if name in assigned_names(n)]
 
 
-def _value_names(v):
-    """Local data names a value expression depends on (not callee names, not attributes of self)."""
+def _value_names(v, containers: set | None = None):
+    """Local data names a value expression depends on (not callee names, not attributes of self).
+    Names that occur only as the subscripted object of a lookup (`table[key]`) are also put into `containers`."""
     out = set()
     if v is None:
         return out
+    sub_only: dict[str, bool] = {}
 
     def rec(e, callee=False):
         if isinstance(e, ast.Name):
             if not callee and e.id not in BUILTINS and e.id != 'self':
                 out.add(e.id)
+                sub_only[e.id] = False
+            return
+        if isinstance(e, ast.Subscript) and isinstance(e.value, ast.Name) and not callee:
+            nm = e.value.id
+            if nm not in BUILTINS and nm != 'self':
+                out.add(nm)
+                sub_only.setdefault(nm, True)
+            rec(e.slice)
             return
         if isinstance(e, ast.Attribute):
             # attribute chains rooted at a local: depends on the local (e.g. `y.exc`); rooted at self: state
@@ -70,6 +80,8 @@ def _value_names(v):
             rec(c)
 
     rec(v)
+    if containers is not None:
+        containers.update(k for k, only in sub_only.items() if only)
     return out
 
 
@@ -176,8 +188,17 @@ def fresh_chain(cfg: CFG, node: Node, name: str, *, sources=(), params=(), _seen
         u = unwrap_await(v)
         if isinstance(u, ast.Call) and (dotted(u.func) in sources):
             continue
-        for dep in _value_names(v):
+        conts: set = set()
+        for dep in _value_names(v, conts):
             if dep == name and isinstance(st, ast.AugAssign):
                 continue
+            if dep in conts and _loop_invariant(cfg, dn, dep):
+                continue  # `table[key]` with a table bound once outside the loop: a lookup, the data dependency is the key
             probs += fresh_chain(cfg, dn, dep, sources=sources, params=params, _seen=_seen, _depth=_depth + 1)
     return probs
+
+
+def _loop_invariant(cfg: CFG, node: Node, name: str) -> bool:
+    """`name` is assigned, but in none of the loops enclosing `node`"""
+    assigners = _assigners(cfg, name)
+    return bool(assigners) and not any(h in a.loops or a.id == h for a in assigners for h in node.loops)
